@@ -122,7 +122,7 @@ def emit_module(progs, path, name="GenProgs"):
 
 class Gen(object):
     def __init__(self, rng, max_forms=2, max_lines=3, max_inputs=2, depth=2, with_instances=True,
-                 hazards=True, with_fo=False):
+                 hazards=True, with_fo=True):
         self.r = rng
         self.max_forms, self.max_lines, self.max_inputs, self.depth = max_forms, max_lines, max_inputs, depth
         self.with_instances, self.hazards, self.with_fo = with_instances, hazards, with_fo
@@ -168,6 +168,18 @@ class Gen(object):
             reqs.append(reqs[0])              # the same form requested twice
         r.shuffle(reqs)
         prog["request"] = reqs
+        # s.form(f) is only well-defined for a form that is certainly loaded: the requested ones (loaded before any attempt).
+        # For any other form it raises KeyError or not depending on what happened to be attempted before -- an abort that
+        # the shipped forms avoid (they only ever name Form 1040, from forms reached through it).
+        def prune(t):
+            if t["k"] == "fo":
+                return prune(t["b"]) if t["f"] not in reqs else {"k": "fo", "f": t["f"], "b": prune(t["b"])}
+            if "br" in t:
+                t["br"] = [prune(b) for b in t["br"]]
+            return t
+        for c in cnames:
+            for l in list(cat[c]["body"]):
+                cat[c]["body"][l] = prune(cat[c]["body"][l])
         if r.random() < 0.2:
             cands = [n for n in line_refs if n.split(".")[0] in reqs]
             if cands:
@@ -200,7 +212,7 @@ class Gen(object):
         x = r.random()
         sub = lambda: self.tree(depth - 1, own_l, own_i, line_refs, input_refs, hz_l, hz_i, cnames, prog)
         br = lambda: [sub()] if r.random() < 0.4 else [sub(), sub()]
-        if self.with_fo and x < 0.05:
+        if self.with_fo and x < 0.08:
             return {"k": "fo", "f": r.choice([f for c in cnames for f in instances_of(prog, c)]), "b": sub()}
         if x < 0.45:
             pool = []
@@ -287,6 +299,12 @@ HANDMADE = [
                          "body": {"3": {"k": "ln", "n": "1", "br": [{"k": "ret", "e": "acc", "c": 0}]},
                                   "1": {"k": "ln", "n": "2", "br": [{"k": "ret", "e": "const", "c": 1}, {"k": "unimpl"}]},
                                   "2": {"k": "in", "n": "x", "br": [{"k": "none"}, {"k": "ret", "e": "const", "c": 1}]}}}},
+     "unknown": ["z"], "request": ["a"], "fieldNames": []},
+    # an unimplemented line next to lines that still need inputs (asked for in two rounds): the questions must not stop
+    {"catalogue": {"a": {"instances": None, "inputs": ["x", "y"], "req": ["1", "2", "3"], "opt": [],
+                         "body": {"1": {"k": "unimpl"},
+                                  "2": {"k": "in", "n": "x", "br": [{"k": "ret", "e": "acc", "c": 0}]},
+                                  "3": {"k": "ln", "n": "2", "br": [{"k": "in", "n": "y", "br": [{"k": "ret", "e": "acc", "c": 0}]}]}}}},
      "unknown": ["z"], "request": ["a"], "fieldNames": []},
     # the same form requested twice
     {"catalogue": {"a": {"instances": None, "inputs": ["x"], "req": ["1"], "opt": [],
